@@ -141,10 +141,30 @@ def nrepSetter (nenv : Nat) (nrep : Nat ⊕ List Nat) : Option (List Nat) :=
   | .inl k => if 0 < k then some (List.replicate nenv k) else none
   | .inr l => if l.length == nenv && l.all (0 < ·) then some l else none
 
-/-- the `nenv` setter (l.201-206) called on a constructed object: it stores the new number of environments and nothing
-    else — the replicate array computed by the earlier `nrep` assignment keeps its old length (`none`: `nenv ≤ 0` is
-    rejected).  `phenotype` then zips `range(nenv)` with that array. -/
+/-- `numpy.all(nrep == nrep[0])`: every entry equals the first (an empty array cannot occur: `nenv > 0`) -/
+def isConst : List Nat → Bool
+  | [] => true
+  | a :: l => l.all (· == a)
+
+/-- what the repaired `nenv` setter (fix of D60) does to the stored replicate array when `nenv := n` is assigned:
+    fewer environments truncate (`nrep[:n]`); more environments over a CONSTANT array (e.g. a broadcast integer) re-broadcast
+    its value (`numpy.full(n, nrep[0])`); more environments over a non-constant array leave it alone (no count is defined
+    for the new environments until `nrep` is assigned; `phenotype()` refuses such a configuration). -/
+def nrepFollow (n : Nat) (nrep : List Nat) : List Nat :=
+  if n < nrep.length then nrep.take n
+  else if nrep.length < n then
+    (match nrep with
+     | [] => nrep
+     | a :: _ => if isConst nrep then List.replicate n a else nrep)
+  else nrep
+
+/-- the `nenv` setter (l.201-215, repaired) called on a constructed object (`none`: `nenv ≤ 0` is rejected) -/
 def reassignNenv (nenv' : Nat) (cfg : Nat × List Nat) : Option (Nat × List Nat) :=
+  if 0 < nenv' then some (nenv', nrepFollow nenv' cfg.2) else none
+
+/-- the `nenv` setter BEFORE the repair of D60: it stored the new number of environments and nothing else — the replicate
+    array computed by the earlier `nrep` assignment kept its old length, and `phenotype` zipped `range(nenv)` with it. -/
+def reassignNenvPrerepair (nenv' : Nat) (cfg : Nat × List Nat) : Option (Nat × List Nat) :=
   if 0 < nenv' then some (nenv', cfg.2) else none
 
 section top
@@ -162,10 +182,9 @@ def phenoShapeOk (gv : List (List α)) (tx tr : List String) (grp : Option (List
   tx.length == gv.length && tr.length == ntrait && gv.all (fun r => r.length == ntrait)
     && grpLenOk grp gv.length && draws.all (drawShapeOk gv.length ntrait)
 
-/-- `G_E_Phenotyping.phenotype`: `gv` is `gpmod.gegv(pgmat).unscale()`, `taxa / grp / trait` the label arrays of
-    that matrix (`none` = `None`), `nrep` the stored array, `draws` the oracle stream.
-    `none` = the real code raises (no taxa / traits, inconsistent shapes, stream exhausted). -/
-def phenotype (gv : List (List α)) (taxa : Option (List String)) (grp : Option (List G))
+/-- `G_E_Phenotyping.phenotype` BEFORE the repair of D60: no check of the configuration; the loop walks
+    `zip(range(nenv), nrep)`, i.e. `min(nenv, len(nrep))` environments. -/
+def phenotypePrerepair (gv : List (List α)) (taxa : Option (List String)) (grp : Option (List G))
     (trait : Option (List String)) (ntrait nenv : Nat) (nrep : List Nat) (draws : List (Draw α)) :
     Option (List String × List (Rec String G α)) :=
   match namesOrDefault "Taxon" taxa gv.length, namesOrDefault "Trait" trait ntrait with
@@ -176,6 +195,15 @@ def phenotype (gv : List (List α)) (taxa : Option (List String)) (grp : Option 
       | none => none
     else none
   | _, _ => none
+
+/-- `G_E_Phenotyping.phenotype` (repaired): `gv` is `gpmod.gegv(pgmat).unscale()`, `taxa / grp / trait` the label arrays of
+    that matrix (`none` = `None`), `nrep` the stored array, `draws` the oracle stream.
+    `none` = the real code raises: `len(nrep) != nenv` (the guard added with the repair of D60: one replicate count per
+    environment is required), no taxa / traits, inconsistent shapes, stream exhausted. -/
+def phenotype (gv : List (List α)) (taxa : Option (List String)) (grp : Option (List G))
+    (trait : Option (List String)) (ntrait nenv : Nat) (nrep : List Nat) (draws : List (Draw α)) :
+    Option (List String × List (Rec String G α)) :=
+  if nrep.length = nenv then phenotypePrerepair gv taxa grp trait ntrait nenv nrep draws else none
 
 /-- `TruePhenotyping.phenotype`: one row per taxon, value = true genotypic value; the `taxa_grp` column exists only
     when the matrix is grouped (l.197-198) -/
